@@ -204,22 +204,42 @@ class PhaseSpaceGenerator(object):
         return ret
 
     def cal_max_weight(self):
+        """replace the analytic bound by the numerical maximum of the weight"""
         if len(self.mass_range) == 0:
-            pass
-
-        def f(x):
-            return float(-self.get_weight(x))
-
-        old_gen = self.mass_generator
-        self.mass_generator = [None for i in old_gen]
-        x0 = self.generate_mass(1)
-        x0 = np.stack([i.numpy()[0] for i in x0])
-
-        self.mass_generator = old_gen
+            return self.m_wtMax
         from scipy.optimize import minimize
 
-        ret = minimize(f, np.array(x0), bounds=self.mass_range)
-        self.m_wtMax *= (-ret.fun) * 1.001
+        # scan uniform proposals and start from the best one
+        old_gen = self.mass_generator
+        self.mass_generator = [None for i in old_gen]
+        try:
+            ms = self.generate_mass(10000)
+        finally:
+            self.mass_generator = old_gen
+        ws = self.get_weight(ms).numpy()
+        ws = np.where(np.isfinite(ws), ws, 0.0)
+        k = int(np.argmax(ws))
+        w0 = float(ws[k])
+        if not w0 > 0:
+            return self.m_wtMax
+        x0 = np.array([float(i[k]) for i in ms])
+        lo = np.array([i[0] for i in self.mass_range], dtype="float64")
+        hi = np.array([i[1] for i in self.mass_range], dtype="float64")
+
+        def f(u):
+            # scaled variables; zero outside of the physical mass ordering
+            x = lo + u * (hi - lo)
+            mt = [self.m_mass[-1], *x, self.m0]
+            for i in range(self.m_nt - 1):
+                if mt[i + 1] < mt[i] + self.m_mass[-i - 2]:
+                    return 0.0
+            w = float(self.get_weight(x)) / w0
+            return -w if np.isfinite(w) else 0.0
+
+        bounds = [(0.0, 1.0) for i in lo]
+        ret = minimize(f, (x0 - lo) / (hi - lo), bounds=bounds)
+        # never below the largest scanned weight
+        self.m_wtMax *= max(1.0, float(-ret.fun)) * w0 * 1.001
         return self.m_wtMax
 
     def set_decay(self, m0, mass):
